@@ -37,6 +37,7 @@ def serKey : SVal → Except SerErr Bytes
   | .str s => .ok s
   | .unitVariant _ v => .ok v
   | .newtype _ v => serKey v
+  | .int w _ => if is128 w then .error .custom else .error .keyNotString   -- `KeySerializer` has no `serialize_i128/u128`: serde's default
   | _ => .error .keyNotString
 
 /-- `SerializeDatetime::serialize_field` over the fields, then `end` -/
@@ -49,6 +50,7 @@ def serDatetime : List (Bytes × SVal) → Option Datetime.Datetime → Except S
         match Datetime.Std.fromStr s with
         | some d => serDatetime r (some d)
         | none => .error .custom
+      | .int w _ => if is128 w then .error .custom else .error .dateInvalid   -- serde's default `serialize_i128/u128`
       | _ => .error .dateInvalid
     else serDatetime r acc
 
